@@ -68,6 +68,25 @@ def build_key_of(body):
 # C16
 # ----------------------------------------------------------------------------------------
 
+def check_arms_reach_policy(rep, fl, rule="R16.3"):
+    """Every applied item reaches the policy: whatever its field values, a New item goes through policy.add, an
+    Update through policy.update and a Delete through policy.remove (no early way out of the arm before the call:
+    an update whose cost happens to be 0 still re-charges the entry)."""
+    hi = fl.proc_fn("handle_item")
+    for variant, callee in (("New", "add"), ("Update", "update"), ("Delete", "remove")):
+        sites = [bi for bi, t in calls_to(hi, fl.policy + "::" + callee)]
+        arms = []
+        for bi in hi.live_blocks():
+            t = hi.term(bi)
+            if t and t["k"] == "switch":
+                for tgt, atom, pol in edge_literals(hi, bi):
+                    if atom is not None and atom[0] == "variant" and atom[2] == variant and pol and norm(hi.expand(atom[1])) == V("item"):
+                        arms.append(tgt)
+        ok = bool(sites) and bool(arms) and all(must_pass_through(hi, sites, from_bi=a_) for a_ in arms)
+        rep.check(ok, rule, fl, hi, "%s always reaches policy.%s" % (variant, callee), "every %s item is applied to the policy (policy.%s on every path of the arm)" % (variant, callee),
+                  "a %s item can be dropped without policy.%s (an early return in the arm): the policy keeps charging what the store no longer holds, or the old cost" % (variant, callee))
+
+
 def check_C16(rep, fl):
     facts = fl.facts
     # ---- R16.1 try_update: external cost and item costs ---------------------------------------
@@ -152,6 +171,19 @@ def check_C16(rep, fl):
         ok = a[1] == item_field("Update", "key") and lin_key(lin(a[2])) == lin_key(want)
         rep.check(ok, "R16.3", fl, hi, "policy.update(key, internal(cost)+external)", "Update => policy.update(key, calculate_internal_cost(cost) + external_cost)",
                   "policy.update is called with (%s, %s)" % (show(a[1]), show(a[2])), loc=t["sp"])
+    check_arms_reach_policy(rep, fl)
+    # who may charge: the cost handed to the policy is computed in handle_item only (the sites checked above)
+    other = "r#async" if fl.name == "sync" else "::sync::"
+    outside = []
+    for ob in facts.bodies:
+        if not user_code(ob) or "::test" in ob.spath or other in ob.spath or ob.spath == hi.spath or ob.spath.startswith(hi.spath + "::{closure"):
+            continue
+        for m_ in ("add", "update"):
+            for bi_, t_ in calls_to(ob, fl.policy + "::" + m_):
+                outside.append((ob, t_, m_))
+    rep.check(not outside, "R16.3", fl, fl.policy, "callers of add/update", "the policy is charged (add / update) only from handle_item, with calculate_internal_cost(cost) [+ external_cost]",
+              "%s also calls policy.%s: that charge does not go through calculate_internal_cost, so the entry's charged cost is not `cost + overhead`"
+              % (", ".join(sorted({o.spath for o, _, _ in outside})), outside[0][2] if outside else ""), loc=outside[0][1]["sp"] if outside else None)
     rej = [(bi, t) for bi, t in calls_to(hi, "CacheCallback::on_reject")]
     for bi, t in rej:
         a = [norm(x) for x in hi.call_args(t)]
@@ -217,7 +249,7 @@ def check_C16(rep, fl):
     props_policy.check_policy_forwarding(rep, fl)
     # ignore_internal_cost reaches the processor as the builder was told (R16.4 checks finalize -> processor)
     import props_panic
-    props_panic.check_builder_plumbing(rep, fl)
+    props_panic.check_builder_plumbing(rep, fl, skip_sites=("num_to_keep literal",))
     props_store.check_sweeper(rep, fl)
 
 
@@ -671,12 +703,30 @@ def check_metrics_core(rep, fl):
     if ok:
         a = [norm(x) for x in b.call_args(fa[0][1])]
         idx = a[0][2] if a[0][0] == "index" else None
-        want = norm(("cast", "usize", ("bin", "Mul", ("bin", "Rem", V("hash"), ("const", 25, "u64")), ("const", 10, "u64"))))
         size = facts.const_value("metrics::SIZE_FOR_EACH_TYPE")
-        ok = idx is not None and norm(b.expand(idx)) == want and a[1] == V("delta") and 24 * 10 < size
+
+        def ub(e):
+            # upper bound of an unsigned expression built from the hash: which stripe is used does not matter to
+            # the balances, only that it is one of the `size` stripes that get() sums
+            e = norm(e)
+            if e[0] == "const" and isinstance(e[1], int):
+                return e[1]
+            if e[0] == "cast":
+                return ub(e[2])
+            if e[0] == "bin" and e[1] == "Rem" and norm(e[3])[0] == "const" and norm(e[3])[1] > 0:
+                return norm(e[3])[1] - 1
+            if e[0] == "bin" and e[1] == "BitAnd":
+                c = [norm(x)[1] for x in (e[2], e[3]) if norm(x)[0] == "const" and isinstance(norm(x)[1], int)]
+                return min(c) if c else None
+            if e[0] == "bin" and e[1] in ("Mul", "Add"):
+                l, r = ub(e[2]), ub(e[3])
+                return None if l is None or r is None else (l * r if e[1] == "Mul" else l + r)
+            return None
+        top = ub(b.expand(idx)) if idx is not None else None
+        ok = idx is not None and top is not None and top < size and mentions(norm(b.expand(idx)), V("hash")) and a[1] == V("delta")
         g = norm(b.expand(a[0][1])) if a[0][0] == "index" else None
         ok = ok and g is not None and any(is_call(c, "BTreeMap::get") and norm(c[2][1]) == V("typ") for c in calls_in(g))
-    rep.check(ok, "R17.6", fl, b, "add", "add(typ, hash, delta): fetch_add(delta) on stripe (hash % 25) * 10 (< 256) of metric typ", "MetricsInner::add changed")
+    rep.check(ok, "R17.6", fl, b, "add", "add(typ, hash, delta): fetch_add(delta) on a stripe chosen from the hash and bounded below the stripe count, of metric typ", "MetricsInner::add no longer adds delta to an in-range stripe of metric typ")
     b = facts.body(MET + "::add")
     ia = calls_to(b, "metrics::MetricsInner::add")
     ok = len(ia) == 1 and [norm(x) for x in b.call_args(ia[0][1])][1:] == [V("typ"), V("hash"), V("delta")]
@@ -804,6 +854,43 @@ def check_histogram(rep, fl):
     rep.note("F11 (observation, not a violation of the conditional clause): track_admission inserts into start_ts only when start_ts.len() > num_to_keep, so no entry is ever tracked")
 
 
+def check_metric_sites(rep, fl, rule="R17.10"):
+    """Who may count what: each metric kind is added only by the functions whose counting is checked by the other
+    rules (hits / misses by the lookups, KeyAdd by track_admission, evictions by the policy's add / remove, ...).
+    A second site elsewhere - get_ttl counting a hit, an update counting an added key - breaks the balances however
+    correct the audited sites are."""
+    facts = fl.facts
+    other = "r#async" if fl.name == "sync" else "::sync::"
+    allowed = {
+        "Hit": {fl.cache + "::get", fl.cache + "::get_mut"}, "Miss": {fl.cache + "::get", fl.cache + "::get_mut"},
+        "KeyAdd": {fl.processor + "::track_admission"}, "KeyUpdate": {"policy::SampledLFU::update"},
+        "KeyEvict": {fl.policy + "::add", fl.policy + "::remove"}, "CostEvict": {fl.policy + "::add", fl.policy + "::remove"},
+        "CostAdd": {fl.policy + "::add", "policy::SampledLFU::update"}, "DropSets": {fl.cache + "::try_insert_in"},
+        "RejectSets": {fl.policy + "::add"}, "DropGets": {fl.policy + "::push"}, "KeepGets": {fl.policy + "::push"},
+    }
+    bad = []
+    n = 0
+    for b in facts.bodies:
+        if not user_code(b) or "::test" in b.spath or other in b.spath or b.spath.startswith("metrics::"):
+            continue
+        fb = b
+        root = strip_generics(b.raw["root"])
+        for bi, t in calls_to(fb, "metrics::Metrics::add"):
+            n += 1
+            k = norm(fb.call_args(t)[1])
+            if k[0] == "agg" and "MetricType::" in k[2]:
+                kind = k[2].split("::")[-1]
+                if root not in allowed.get(kind, set()):
+                    bad.append("%s adds %s" % (root, kind))
+            else:
+                # a kind held in a variable: every value it can take must be allowed here
+                vals = {x[2].split("::")[-1] for d in var_def_exprs(fb, k) for x in [norm(d)] if x[0] == "agg" and "MetricType::" in x[2]} if k[0] == "var" else set()
+                if not vals or any(root not in allowed.get(v, set()) for v in vals):
+                    bad.append("%s adds a metric kind it computes (%s)" % (root, show(k)))
+    rep.check(not bad and n >= 15, rule, fl, "Metrics::add", "sites", "each of the %d Metrics::add sites counts a kind its function is responsible for" % n,
+              "a metric is counted outside the functions that own it: %s (the conservation laws are checked on the owning sites only)" % "; ".join(sorted(set(bad))[:4]))
+
+
 def check_C17(rep, fl):
     check_hit_miss(rep, fl)
     check_policy_metrics(rep, fl)
@@ -811,6 +898,7 @@ def check_C17(rep, fl):
     check_admission_metrics(rep, fl)
     check_dropsets(rep, fl)
     check_metrics_core(rep, fl)
+    check_metric_sites(rep, fl)
     # "from any number of threads": every handle counts into the same Metrics and drives the same policy
     check_handle_sharing(rep, fl, fields=("metrics", "policy", "store", "insert_buf_tx"))
 
@@ -853,7 +941,7 @@ def check_C15(rep, fl):
     check_handle_sharing(rep, fl, fields=("get_buf", "policy", "metrics"))
     # "in batches of buffer_items": the value given to the builder is the ring's capacity
     import props_panic
-    props_panic.check_builder_plumbing(rep, fl)
+    props_panic.check_builder_plumbing(rep, fl, skip_sites=("num_to_keep literal", "default ignore_internal_cost"))
     # R15.1 get / get_mut push the index before the store lookup, hit or miss
     for m in ("get", "get_mut"):
         b = fl.cache_fn(m)
